@@ -316,7 +316,44 @@ func TestC03(t *testing.T) {
 		}
 		// ---- layer (b): end to end on a live application ----
 		src := NewGenSource(rt, p)
-		c, err := RunPrimary("C03", src, nil)
+		// frame condition while the history runs: what a key holder owns - balance and withdrawable reward of his
+		// account - never shrinks in a block in which no transaction sent (and signed) by him succeeded
+		var prevApp *AppState
+		c, err := RunPrimary("C03", src, &PrimaryOpts{AfterCommit: func(c *Case, b *Block, br *BlockResult) error {
+			a, perr := readAppState(c.Sim)
+			if perr != nil {
+				return perr
+			}
+			acted := map[string]bool{}
+			outs := c.Outcomes[len(c.Outcomes)-1]
+			for i, raw := range b.Txs {
+				tx := &ctypes.Trx{}
+				if i < len(outs) && outs[i].OK && tx.Decode(raw) == nil {
+					acted[ak(tx.From)] = true
+				}
+			}
+			if prevApp != nil {
+				for _, g := range c.Hist.Genesis.Balances {
+					k := ak(actorNamed(g.Actor).Addr)
+					if acted[k] {
+						continue
+					}
+					if was, ok := prevApp.Accts[k]; ok {
+						if now, ok2 := a.Accts[k]; !ok2 || now.Bal.Cmp(was.Bal) < 0 {
+							c.W.fail("C03", "the balance of %s (%s) shrank in a block in which no transaction of that account succeeded", g.Actor, k[:8])
+						}
+					}
+					if was, ok := prevApp.Rewards[k]; ok {
+						if now, ok2 := a.Rewards[k]; !ok2 || now.Cum.Cmp(was.Cum) < 0 {
+							c.W.fail("C03", "the withdrawable reward of %s (%s) shrank in a block in which no transaction of that account succeeded", g.Actor, k[:8])
+						}
+					}
+				}
+				st.label("blocks_checked_for_third_party_loss", 1)
+			}
+			prevApp = a
+			return nil
+		}})
 		if c != nil && c.Sim != nil {
 			defer c.Sim.Close(true)
 		}
